@@ -167,9 +167,27 @@ def evaluate(ctx, res, progs, vio_name, tag, sig_prefix, what):
                           [('R_mis', 'w_mismatches cases'), ('R_vio', '%s cases' % vio_name)])
     with CF.ThreadPoolExecutor(max_workers=6) as ex:
         results = list(ex.map(ev, range(len(chunks))))
-    for chunk, r in zip(chunks, results):
+    fb = vio_name.replace('violations', 'first_bad')
+    nloc = 0
+    for ci, (chunk, r) in enumerate(zip(chunks, results)):
+        badidx = sorted(set(r['R_vio']) | set(r['R_mis']))
+        loc = {}
+        if badidx and nloc < 3:
+            # locate the first rejected / differing delivery of (a few of) the bad programs for the replay file
+            sel = badidx[:3]; nloc += len(sel)
+            lr = C.coq_eval(pid, 'locate_%s_%d' % (tag, ci), HEADER + 'Definition cases : list wcase := %s.\n' % C.coq_list([case_term(chunk[i]) for i in sel]),
+                            [('R_fb', 'map %s cases' % fb), ('R_fd', 'map w_first_diff cases')])
+            loc = {i: (lr['R_fb'][j], lr['R_fd'][j]) for j, i in enumerate(sel)}
+        def focus(i, which):
+            d = describe(chunk[i])
+            if i in loc:
+                k = loc[i][which]
+                dels = [o for o in chunk[i]['ops'] if o['k'] == 'deliver']
+                if k < len(dels):
+                    d = dict(first_bad_delivery=dict(number=k, delivery=dels[k]['d'], observed=d['observed'][k] if k < len(d['observed']) else None), **d)
+            return d
         for i in r['R_vio']:
-            res.violations.append(dict(signature=sig_prefix + '/monitor', what=what, case=describe(chunk[i])))
+            res.violations.append(dict(signature=sig_prefix + '/monitor', what=what, case=focus(i, 0)))
         for i in r['R_mis']:
-            res.mismatches.append(dict(kind='Corr.C08.w_mismatch (Router/Wiring.v run vs the real Router)', explained_by_violation=i in r['R_vio'], case=describe(chunk[i])))
+            res.mismatches.append(dict(kind='Corr.C08.w_mismatch (Router/Wiring.v run vs the real Router)', explained_by_violation=i in r['R_vio'], case=focus(i, 1)))
     return good
